@@ -4,6 +4,7 @@
 //! usage: pgharness <PROP> --seed S --cases N [--shard i/n] [--only k] [--tier quick|thorough]
 mod common;
 mod rng;
+mod c07;
 mod c08;
 mod c19;
 mod graphs;
@@ -39,8 +40,9 @@ fn main() {
         }
     }
     std::panic::set_hook(Box::new(|_| {}));
-    let mut ctx = Ctx { seed, tier_thorough: thorough, out: std::io::BufWriter::new(std::io::stdout()) };
+    let mut ctx = Ctx { seed, tier_thorough: thorough, flush_each: std::env::var("PG_FLUSH").is_ok(), out: std::io::BufWriter::new(std::io::stdout()) };
     let run: fn(&mut Ctx, u64) = match prop.as_str() {
+        "C07" => c07::run,
         "C08" => c08::run,
         "C19" => c19::run,
         _ => { eprintln!("unknown property {}", prop); std::process::exit(2); }
